@@ -38,6 +38,7 @@ CTX_SA = CTX_A + (('_return_self', True),)
 CTX_B = (('k0', 'other'), ('k1', 'two'), ('_noview', True), ('_private', 'q'), ('extra', 42))
 CTX_SB = CTX_B + (('_return_self', True),)
 CTX_VIEW = (('k0', 'a0'), ('k1', 'a1'), ('_p', 'x'))
+CTX_K0 = (('k0', 'only'),)        # the per-parameter filter of an odd-labelled task keeps nothing: its context is {}
 
 
 def expected_ctx(tname: str, label: int, ctx: dict):
@@ -74,7 +75,7 @@ def bases(tier):
             for types in itertools.product(('TA', 'TF', 'TG', 'TH') if n < 3 else ('TF', 'TG', 'TH'), repeat=n):
                 spec = mk_spec(shape, types=types)
                 req = tuple((i, False) for i in range(n))
-                for ctx in (CTX_VIEW, CTX_A, None):
+                for ctx in (CTX_VIEW, CTX_A, None) + ((CTX_K0,) if n <= 2 else ()):
                     out.append(e2.Config(spec=spec, requested=req, context=ctx))
                     if n >= 2:
                         out.append(e2.Config(spec=spec, requested=req, context=ctx, precached=(0,)))
@@ -189,11 +190,15 @@ def real_sequence_dump(order: str, storage_root: str):
     out = []
     os.makedirs(storage_root, exist_ok=True)
     for step, backend in enumerate(order.split('-')):
+        again = backend.endswith('B')       # then re-execute through the single-task entry point: run_task(t, bust_cache=True)
+        backend = backend.rstrip('B')
         spec = mk_spec(((), (0,)), types=('TA', 'TG'), labels=(10 * step, 10 * step + 1))
         built = Built(spec)
         lab = labtech.Lab(storage=os.path.join(storage_root, f's{step}'), runner_backend=backend, max_workers=2, notebook=False, context=dict(CTX_VIEW))
         res = lab.run_tasks(list(built.canon), disable_progress=True, disable_top=True)
-        out.append({'backend': backend, 'labels': list(spec.labels), 'returned': len(res)})
+        if again:
+            lab.run_task(built.canon[-1], bust_cache=True, disable_progress=True, disable_top=True)
+        out.append({'backend': backend, 'labels': list(spec.labels), 'returned': len(res), 'executions': 2 if again else 1})
     print(json.dumps({'pid': os.getpid(), 'tid': threading.get_ident(), 'steps': out}))
 
 
@@ -210,13 +215,17 @@ def real_sequence_case(order: str):
             return [(f'sequence-run-failed', f'{d}: exited {rc}: {se[-500:]}', 1)], 0
         parent = json.loads(so.strip().splitlines()[-1])
         envs = [json.loads(l) for l in open(wf) if l.strip()]
-        envs = {tuple(e[3])[1]: e for e in envs if e[2] == 'env'}
+        counts: dict = {}
+        for e in envs:
+            if e[2] == 'env':
+                counts[tuple(e[3])[1]] = counts.get(tuple(e[3])[1], 0) + 1
+        envs = {tuple(e[3])[1]: e for e in envs if e[2] == 'env'}      # the latest execution of each label
         n = 0
         for step in parent['steps']:
             for label in step['labels']:
                 e = envs.get(label)
-                if e is None:
-                    out.append((f'{step["backend"]}:missing-executions', f'{d}: no environment record for label {label}', 1))
+                if e is None or counts.get(label) != step.get('executions', 1):
+                    out.append((f'{step["backend"]}:missing-executions', f'{d}: {counts.get(label, 0)} environment records for label {label}, expected {step.get("executions", 1)}', 1))
                     continue
                 n += 1
                 pid, ppid, tid, method, mark = e[4], e[5], e[6], e[7], e[8]
@@ -466,7 +475,7 @@ def run(tier: str, seed: int) -> Result:
     dags = (0, 1) if tier == 'quick' else (0, 1, 2)
     reals = [(b, mw, dg) for b in ('serial', 'fork', 'spawn') for mw in mws for dg in dags]
     reals += [('spawn', 2, 0, 'inline'), ('fork', 2, 0, 'inline')] + ([('spawn', 1, 1, 'inline'), ('serial', 1, 1, 'inline')] if tier != 'quick' else [])
-    seqs = ['fork-spawn-fork', 'spawn-fork-serial'] if tier == 'quick' else ['fork-spawn-fork', 'spawn-fork-serial', 'serial-spawn-spawn-fork', 'fork-fork-spawn']
+    seqs = ['fork-spawn-fork', 'spawn-fork-serial', 'forkB-spawnB'] if tier == 'quick' else ['fork-spawn-fork', 'spawn-fork-serial', 'serial-spawn-spawn-fork', 'fork-fork-spawn', 'forkB-spawnB', 'spawnB-serialB-forkB']
     work = [('real', r) for r in reals] + [('seq', sq) for sq in seqs] + [('relab', b) for b in ('serial', 'fork', 'spawn')] + [('threads', 'fork')] + ([('threads', 'spawn')] if tier != 'quick' else []) + work
     viols = []
     n_ctx = n_bytes = n_real = 0
